@@ -109,6 +109,23 @@ impl OwnedHeaders {
         }
         OwnedHeaders { _strings: strings, nodes }
     }
+    /// entries given as raw bytes (need not be UTF-8); None = null pointer
+    pub fn new_raw(entries: &[(Option<&[u8]>, Option<&[u8]>)]) -> OwnedHeaders {
+        let mut strings = Vec::new();
+        let mut nodes: Vec<Box<CHeaderMap>> = Vec::new();
+        for (n, v) in entries {
+            let ns = n.map(OwnedC::raw).unwrap_or_else(OwnedC::null);
+            let vs = v.map(OwnedC::raw).unwrap_or_else(OwnedC::null);
+            nodes.push(Box::new(CHeaderMap { name: ns.ptr(), value: vs.ptr(), next: null_mut() }));
+            strings.push(ns);
+            strings.push(vs);
+        }
+        for i in 0..nodes.len().saturating_sub(1) {
+            let next: *mut CHeaderMap = &mut *nodes[i + 1];
+            nodes[i].next = next;
+        }
+        OwnedHeaders { _strings: strings, nodes }
+    }
     pub fn ptr(&self) -> *const CHeaderMap {
         match self.nodes.first() {
             Some(b) => &**b as *const CHeaderMap,
